@@ -93,7 +93,7 @@ def gen_case(rng):
     t = gen_tree(rng, ns=dn)
     xml = to_xml(t, dn or None)
     expr = gen_expr(rng, t[2]) if rng.random() < 0.9 else gen_invalid(rng)
-    nsarg = rng.choice([None, None, "p"]) if "p:" not in expr else "p"
+    nsarg = rng.choice([None, None, "p", "ponly"]) if "p:" not in expr else rng.choice(["p", "p", "ponly"])
     if rng.random() < 0.03:
         nsarg = "empty"
     return {"xml": xml, "ctx": 0 if rng.random() < 0.6 else rng.randrange(0, 1000), "expr": expr, "ns": nsarg}
@@ -104,6 +104,9 @@ def ns_arg(case, ctx_ns):
         return None
     if case["ns"] == "empty":
         return {}
+    if case["ns"] == "ponly":
+        # prefixes only: unprefixed names are in no namespace for the query and for the creation
+        return {"p": "urn:p"}
     d = {"p": "urn:p"}
     if ctx_ns:
         d[""] = ctx_ns
@@ -302,6 +305,7 @@ def corpus():
     cs.append({"xml": '<r xmlns="urn:d"><a/><a/></r>', "ctx": 0, "expr": "a/b", "ns": None})
     cs.append({"xml": "<root><intermediate/></root>", "ctx": 0, "expr": "intermediate/p:test", "ns": "p"})
     cs.append({"xml": '<root xmlns:p="urn:p"/>', "ctx": 0, "expr": "node[@p:attr='value']", "ns": "p"})
+    cs.append({"xml": '<root xmlns="urn:x"><keep k="v">text</keep></root>', "ctx": 0, "expr": "p:a/b", "ns": "ponly"})
     return cs
 
 
